@@ -1142,6 +1142,43 @@ func ruleC12Mailbox(c *Ctx) {
 		fa, ok := call.Call.Args[0].(*ssa.FieldAddr)
 		return ok && fieldOf(fa) == fBlocked
 	}
+	// the state that means "captured in a blocking wait": the state the capture function (the method that hands out the
+	// mailbox channel) moves the connection to
+	captured, haveCaptured := int64(0), false
+	for _, fn := range c.SrcFuncs() {
+		if fn.Signature.Recv() == nil || !c.isPkgType(fn.Signature.Recv().Type(), "clientState") || fn.Signature.Results().Len() != 1 {
+			continue
+		}
+		if _, isChan := fn.Signature.Results().At(0).Type().Underlying().(*types.Chan); !isChan {
+			continue
+		}
+		for _, in := range instrsOf(fn) {
+			call, ok := in.(*ssa.Call)
+			if !ok {
+				continue
+			}
+			if strings.HasPrefix(fullCalleeName(call), "sync/atomic.") && fromState(call) {
+				if k, isC := constInt(call.Call.Args[len(call.Call.Args)-1]); isC {
+					captured, haveCaptured = k, true
+				}
+			} else if g := call.Call.StaticCallee(); g != nil && c.InPkg(g) && len(call.Call.Args) >= 2 {
+				// a transition helper (setLock(from, to)): the last constant argument is the new state
+				touches := false
+				for _, in2 := range instrsOf(g) {
+					if c2, ok := in2.(*ssa.Call); ok && strings.HasPrefix(fullCalleeName(c2), "sync/atomic.") && fromState(c2) {
+						touches = true
+					}
+				}
+				if k, isC := constInt(call.Call.Args[len(call.Call.Args)-1]); isC && touches {
+					captured, haveCaptured = k, true
+				}
+			}
+		}
+	}
+	isCaptured := func(v ssa.Value) bool {
+		k, isC := constInt(v)
+		return isC && (!haveCaptured || k == captured)
+	}
 	n := 0
 	for _, fn := range c.SrcFuncs() {
 		k := 0
@@ -1162,11 +1199,32 @@ func ruleC12Mailbox(c *Ctx) {
 				if !ok {
 					continue
 				}
+				// … or the success side of a CompareAndSwap of the state from one named state
+				cond, neg := ifi.Cond, false
+				for {
+					u, isU := cond.(*ssa.UnOp)
+					if !isU || u.Op != token.NOT {
+						break
+					}
+					cond, neg = u.X, !neg
+				}
+				if cas, isCall := cond.(*ssa.Call); isCall && strings.HasPrefix(fullCalleeName(cas), "sync/atomic.CompareAndSwap") && fromState(cas) && len(cas.Call.Args) == 3 {
+					if isCaptured(cas.Call.Args[1]) {
+						s := b.Succs[0]
+						if neg {
+							s = b.Succs[1]
+						}
+						if len(s.Preds) == 1 && (s == snd.Block() || s.Dominates(snd.Block())) {
+							guarded = true
+						}
+					}
+					continue
+				}
 				bo, ok := ifi.Cond.(*ssa.BinOp)
 				if !ok || bo.Op != token.EQL {
 					continue
 				}
-				if _, isC := bo.Y.(*ssa.Const); !isC || !fromState(bo.X) {
+				if !isCaptured(bo.Y) || !fromState(bo.X) {
 					continue
 				}
 				s := b.Succs[0]
